@@ -618,7 +618,9 @@ type ExprBinOpRef<'a> = (&'a Sp<ast::Expr>, Sp<ast::BinOpKind>, &'a Sp<ast::Expr
 impl JmpKind {
     fn as_binop_cond(&self) -> Option<(Sp<ast::CondKeyword>, Sp<ExprBinOpRef<'_>>)> {
         match *self {
+            // (`--x > 0` is a decrement jump, not a comparison; its negation could not be compiled back)
             JmpKind::Cond { keyword, cond: sp_pat!(span => ast::Expr::BinOp(ref a, op, ref b)) }
+                if !matches!(a.value, ast::Expr::XcrementOp { .. })
                 => Some((keyword, sp!(span => (a, op, b)))),
 
             _ => None,
